@@ -1409,6 +1409,46 @@ class Body:
                             if x.k == 'id' and x.t.lstrip().startswith('if (op2_exc)') and d2 == 0: break
                             st -= 1
                         stmt = out[st + 1:k]
+                        # R6nest: a throwing call nested in the ARGUMENT LIST of another call is hoisted in front of the statement
+                        #   outer(a, thrower(b));   ->   __typeof__(thrower(b)) op2_hN = thrower(b); if (op2_exc) return; outer(a, op2_hN);
+                        # (C++ abandons the full expression when the inner call throws; without hoisting the outer call would still run here)
+                        hoisted = []
+                        while True:
+                            d4 = 0; found = None; opens = []
+                            for zi, x in enumerate(stmt):
+                                if x.k == 'op' and x.t in OPEN:
+                                    pz = zi - 1
+                                    while pz >= 0 and not sig(stmt[pz]): pz -= 1
+                                    opens.append(x.t == '(' and pz >= 0 and stmt[pz].k == 'id' and stmt[pz].t not in ('if', 'while', 'for', 'switch', 'return', 'sizeof', '__typeof__'))
+                                elif x.k == 'op' and x.t in CLOSE:
+                                    if opens: opens.pop()
+                                elif x.k == 'id' and x.t in throwers and any(opens):
+                                    nz = zi + 1
+                                    while nz < len(stmt) and not sig(stmt[nz]): nz += 1
+                                    if nz < len(stmt) and stmt[nz].t == '(':
+                                        found = (zi, match_fwd(stmt, nz)); break
+                            if not found: break
+                            a_, b_ = found
+                            hn = 'op2_h%d' % ctx.setdefault('n_hoist', 0); ctx['n_hoist'] += 1
+                            call_txt = untok(stmt[a_:b_ + 1])
+                            hoisted += tokenize('__typeof__(%s) %s = %s; %s ' % (call_txt, hn, call_txt, prop_text))
+                            stmt = stmt[:a_] + [T('id', hn)] + stmt[b_ + 1:]
+                            self.fire('R6nest')
+                        if hoisted:
+                            ws0h = []
+                            for x in stmt:
+                                if sig(x): break
+                                ws0h.append(x)
+                            stmt = ws0h + hoisted + stmt[len(ws0h):]
+                            out[st + 1:k] = stmt
+                            k = st + 1 + len(stmt)
+                            stmt_has = any(x.k == 'id' and x.t in throwers for x in stmt[len(ws0h) + len(hoisted):])
+                            stmt = stmt[len(ws0h) + len(hoisted):]
+                            st = k - len(stmt) - 1
+                            if not stmt_has:
+                                stmt_has = False
+                                i += 1
+                                continue
                         ssig = [x for x in stmt if sig(x)]
                         eqi = None; d3 = 0
                         for zi, x in enumerate(stmt):
